@@ -88,7 +88,7 @@ impl Rec {
         self.inner.lock().unwrap().fault = f;
     }
     /// Start gating the given labels; returns the controller.
-    pub fn gate(&self, labels: &[&'static str]) -> Controller {
+    pub fn start_gating(&self, labels: &[&'static str]) -> Controller {
         let (tx, rx) = mpsc::unbounded_channel();
         let mut g = self.inner.lock().unwrap();
         g.gated = Some(labels.iter().copied().collect());
